@@ -252,7 +252,7 @@ func c12Order(w *World, r *Report, ef *Effects, exec *ssa.Function) {
 		if rp.Class != RetSuccess {
 			continue
 		}
-		to := posOf(rp.Ret)
+		to := retPos(rp)
 		if rp.Pred != nil {
 			to = IPos{rp.Pred, len(rp.Pred.Instrs) - 1}
 		}
@@ -423,7 +423,7 @@ func totalDeleters(w *World, ef *Effects, r *Report) map[*ssa.Function]int {
 			for _, rp := range g.classifyReturns() {
 				// every return — also an error return — must come after a deletion attempt: a wrapper
 				// that can give up before calling the deleter does not apply the policy on that path
-				if ex, _ := g.PathExists(entryPos(fn), posOf(rp.Ret), avoidInstrs(calls...)); ex {
+				if ex, _ := g.PathExists(entryPos(fn), retPos(rp), avoidInstrs(calls...)); ex {
 					total = false
 				}
 			}
